@@ -1645,14 +1645,14 @@ func (fr *Framer) readMetaFrame(hf *HeadersFrame) (Frame, error) {
 		if VerboseLogs {
 			log.Printf("http2: invalid header: %v", invalid)
 		}
-		return nil, StreamError{mh.StreamID, ErrCodeProtocol, invalid}
+		return mh, StreamError{mh.StreamID, ErrCodeProtocol, invalid}
 	}
 	if err := mh.checkPseudos(); err != nil {
 		fr.errDetail = err
 		if VerboseLogs {
 			log.Printf("http2: invalid pseudo headers: %v", err)
 		}
-		return nil, StreamError{mh.StreamID, ErrCodeProtocol, err}
+		return mh, StreamError{mh.StreamID, ErrCodeProtocol, err}
 	}
 	return mh, nil
 }
